@@ -134,6 +134,17 @@ pub fn a64_run(mem: &dyn Mem, start: u64, max_steps: usize) -> A64Out {
                 o.written.insert(rd);
             }
             pc = pc.wrapping_add(4);
+        } else if w & 0xFF00_0000 == 0x5800_0000 {
+            // LDR Xt, <label> (literal, 64-bit): address = pc + sext(imm19:00)
+            let off = sext(((w >> 5) & 0x7FFFF) as u64, 19) << 2;
+            let addr = pc.wrapping_add(off as u64);
+            let val = mem.rd64(addr);
+            o.trace.push(format!("{pc:#x}: ldr x{rd}, ={val:#x} ; [{addr:#x}]"));
+            if rd != 31 {
+                o.regs[rd as usize] = Some(val);
+                o.written.insert(rd);
+            }
+            pc = pc.wrapping_add(4);
         } else if w & 0xFFFF_FC1F == 0xD61F_0000 {
             o.trace.push(format!("{pc:#x}: br x{rn}"));
             o.end = A64End::Br { reg: rn, value: if rn == 31 { None } else { o.regs[rn as usize] }, at: pc };
